@@ -1,0 +1,17 @@
+//go:build verif
+
+// Machine-checked contracts for package runner (comment-only; read by
+// /verif/govc, never compiled into the program).
+
+package runner
+
+// ---- the Runner interface as seen by the scheduler
+//@ func Runner.Run
+//@   requires t != nil
+//@   modifies t.*
+//@   effect awaits-task
+//@ func Runner.Cancel
+//@   nomod
+//@   effect awaits-task
+//@ func Runner.Finish
+//@   nomod
